@@ -63,6 +63,9 @@ def pregen(ctx):
         for p in e.params[e.n_explicit:]:
             attr_id.setdefault(akey(e, p), len(attr_id))
     expected = sorted(_expected_mutators(ctx))
+    # the `_refuted` witness file only exists (and only compiles) while some recorded mutator still reproduces
+    global STAGES
+    STAGES = [['C19_analysis.v'], ['C19.v'] + ([('C19_refuted.v', {'finding': 'static/mutators-present'})] if expected else [])]
     L = ['Definition gtop : list nat := [0; 1; 2].']
     L.append('Definition exempt_inplace : list bool := [' + '; '.join('true' if _exempt(e.name) else 'false' for e in res.entries) + '].')
     L.append('Definition global_allowed : list bool := [' + '; '.join('true' if _global_allowed(e.name) else 'false' for e in res.entries) + '].')
@@ -74,6 +77,16 @@ def pregen(ctx):
     L.append('Definition attr_params : list (list (nat * nat)) := [' + ';\n  '.join(ap) + '].')
     L.append('Definition attr_exit : list (list (nat * nat)) := [' + ';\n  '.join(ax) + '].')
     L.append('Definition n_self : list nat := [' + '; '.join('1' if (res.pkg.funcs[e.qual].cls and res.pkg.funcs[e.qual].kind in ('method', 'property')) else '0' for e in res.entries) + '].')
+    def is_arr(e):
+        f = res.pkg.funcs[e.qual]
+        return bool(f.cls and res.pkg.classes[f.cls].is_array and f.kind in ('method', 'property'))
+    L.append('Definition array_class : list bool := [' + '; '.join('true' if is_arr(e) else 'false' for e in res.entries) + '].')
+    # constructors of classes that own documented in-place operations: they must hand out an object that shares no
+    # memory with the caller's data (otherwise the documented in-place operation rewrites the CALLER's array)
+    inplace_classes = {res.pkg.funcs[n.split('[')[0]].cls for (n, _p) in TB.DOCUMENTED_INPLACE if n.split('[')[0] in res.pkg.funcs}
+    L.append('Definition ctor_required : list bool := [' + '; '.join(
+        'true' if (res.pkg.funcs[e.qual].cls in inplace_classes and e.qual.split('.')[-1] in ('__new__', '__init__')) else 'false'
+        for e in res.entries) + '].')
     L.append('Definition expected_mutators : list string := [' + '; '.join(f'"{n}"' for n in expected) + '].')
     path = os.path.join(ctx.build, 'gen', 'C19effects.v')
     pyfx.emit_coq(res, path, L)
@@ -95,19 +108,21 @@ def pregen(ctx):
             ctx.say(f"[pyfx] UNCLASSIFIED (dynamic check only; static claim partial): {n}: {why}")
 
 
-def _expected_mutators(ctx):
-    """callables whose recorded mutation finding still reproduces on the implementation"""
+def _static_findings_left():
+    """static names (callable variants) of the recorded findings that still reproduce on the implementation"""
     from vlib.core import load_findings, call_outcome
     out = set()
     for k in load_findings(PID):
-        if k.get('status', 'known') != 'known' or k.get('oracle') != 'mutation':
+        if k.get('status', 'known') != 'known' or not k.get('static_name') or k.get('oracle') == 'static':
             continue
-        r = call_outcome(o_mutation, k['witness'])
+        r = call_outcome(ORACLES[k['oracle']], k['witness'])
         if r[0] == 'val' and r[1] is not None and r[1].get('tag') == k['tag']:
-            out.add(k['witness']['callable'])
-            for extra in k.get('also_flags', []):
-                out.add(extra)
+            out.add(k['static_name'])
     return out
+
+
+def _expected_mutators(ctx):
+    return _static_findings_left()
 
 
 # ====================================================================== dynamic side: argument synthesis
@@ -514,20 +529,191 @@ def o_repeat(inp):
 
 
 def o_static(inp):
-    """replay hook of the static finding: does the tree still contain the recorded mutators?"""
-    from vlib.core import load_findings
-    left = []
-    for k in load_findings(PID):
-        if k.get('oracle') == 'mutation' and k.get('status', 'known') == 'known':
-            r = o_mutation(k['witness'])
-            if r is not None and r.get('tag') == k['tag']:
-                left.append(k['witness']['callable'])
+    """replay hook of the static finding: does the tree still contain recorded mutators?"""
+    left = _static_findings_left()
     if left:
         return {'tag': 'static/mutators-present', 'observed': sorted(left), 'expected': []}
     return None
 
 
-ORACLES = {'mutation': o_mutation, 'repeat': o_repeat, 'static': o_static}
+# ---------------------------------------------------------------------- object life cycles
+ARRAY_CLASSES = {'common.quaternion.Quaternion': 'Quaternion', 'common.quaternion.QuaternionArray': 'QuaternionArray', 'common.dcm.DCM': 'DCM'}
+
+
+def _lc_data(cname, r, data):
+    """float64 caller data for the constructor; `data` selects the shape of trouble (sign jump, NaN rows...)"""
+    if cname == 'Quaternion':
+        return _quat(r, False) if data % 2 == 0 else _quat(r, True)
+    if cname == 'QuaternionArray':
+        base = _quat(r, False)
+        Q = np.tile(base, (6, 1)) + r.standard_normal((6, 4)) * 0.05
+        if data % 2 == 0:
+            Q[1:3] *= -1.0                       # a sign jump: remove_jumps has work to do
+        return Q
+    return _rotm(r)
+
+
+def _lc_options(cname):
+    if cname == 'Quaternion':
+        return [dict(versor=v, order=o) for v in (True, False) for o in ('H', 'S')]
+    if cname == 'QuaternionArray':
+        return [dict(versors=v, order=o) for v in (True, False) for o in ('H', 'S')]
+    return [dict()]
+
+
+def _lc_members(cls):
+    out = []
+    for n in sorted(set(dir(cls))):
+        if n.startswith('_') and n not in pyfx.extract.ARITH_DUNDERS:
+            continue
+        for k in cls.__mro__:
+            if n in k.__dict__ and k.__module__.startswith('ahrs'):
+                out.append(n)
+                break
+    return out
+
+
+def _lc_args(cls, name, r, n_rows, optional, trial):
+    """arguments of method `name`; optional=True also fills defaulted parameters that have a generator"""
+    obj = None
+    for k in cls.__mro__:
+        if name in k.__dict__:
+            obj = k.__dict__[name]
+            break
+    if isinstance(obj, property):
+        return None
+    fn = obj.__func__ if isinstance(obj, (staticmethod, classmethod)) else obj
+    kw = {}
+    for p in list(inspect.signature(fn).parameters.values())[1:]:
+        if p.kind in (p.VAR_POSITIONAL, p.VAR_KEYWORD):
+            continue
+        if p.default is not p.empty and not optional:
+            continue
+        if p.name == 'weights':
+            kw[p.name] = np.array([1.0, 2.0, 3.0, 3.0, 2.0, 1.0])[:n_rows] if trial % 2 == 0 else np.array([1.0, 5.0, 2.0])
+        elif p.name == 'span':
+            if trial % 2 == 1:
+                kw[p.name] = (1, 4)
+        elif p.name == 'inplace':
+            kw[p.name] = bool(trial % 2)
+        elif p.name == 'method':
+            if p.default is p.empty:
+                raise LookupError('method')
+        else:
+            c_ = _cands(p.name, None, p.default, r, trial)
+            ann = p.annotation if isinstance(p.annotation, str) else getattr(p.annotation, '__name__', str(p.annotation))
+            if str(ann).replace('Optional[', '').rstrip(']') in TB.SCALAR_ANN:
+                c_ = [v for v in c_ if isinstance(v, (int, float, str, bool))]
+            if cls.__name__ == 'QuaternionArray' and p.name in ('q', 'p'):
+                c_ = c_[:1]
+            if not c_:
+                if p.default is p.empty:
+                    raise LookupError(p.name)
+                continue
+            kw[p.name] = c_[min(trial % 2, len(c_) - 1)] if cls.__name__ != 'Quaternion' else c_[0]
+    return kw
+
+
+def _is_documented_mutator(qual, kw):
+    v = _variant_of(qual, kw)
+    return (v, '*') in TB.DOCUMENTED_INPLACE or qual in TB.OWN_STATE_INPLACE
+
+
+def lifecycle(cqual, opt, data, member, optional, trial):
+    """construct from the caller's float64 data with option set `opt`, call `member` twice on the SAME object.
+    Returns None (could not be exercised) or a dict of observations."""
+    import warnings
+    cls, _o = _live(cqual)
+    cname = cls.__name__
+    r = _rng(cqual, data, 'lc')
+    held = {}
+    if cname in ARRAY_CLASSES.values():
+        arr = _lc_data(cname, r, data)
+        opts = _lc_options(cname)
+        kwc = opts[opt % len(opts)]
+        held = {'ctor.data': arr}
+        try:
+            inst = cls(arr, **kwc)
+        except Exception:
+            return None
+    else:
+        try:
+            inst, held = _instance(cls, r, 2 + 3 * (opt % 2) if opt % 2 == 0 else 1)
+        except Exception:
+            return None
+        kwc = {}
+    raw = {k: (v, v.tobytes()) for k, v in held.items() if isinstance(v, np.ndarray)}
+    n_rows = inst.shape[0] if isinstance(inst, np.ndarray) and inst.ndim == 2 else 6
+    try:
+        kw = _lc_args(cls, member, _rng(cqual, member, trial), n_rows, optional, trial)
+    except LookupError:
+        return None
+    isprop = kw is None
+    kw = kw or {}
+    argraw = {k: (v, v.tobytes()) for k, v in kw.items() if isinstance(v, np.ndarray)}
+    qual = f'{cqual}.{member}'
+    res = {'ctor_options': kwc, 'kwargs': {k: _brief(v) for k, v in kw.items()}, 'ctor_changed': [], 'state_changed': [], 'args_changed': [],
+           'mutator': _is_documented_mutator(qual, kw), 'aliases_ctor_data': False}
+    if isinstance(inst, np.ndarray):
+        res['aliases_ctor_data'] = any(np.shares_memory(inst, v) or any(isinstance(a, np.ndarray) and np.shares_memory(a, v)
+                                                                        for a in vars(inst).values()) for v, _b in raw.values())
+
+    def state():
+        s = _snap([('self', inst)])
+        return {p: b for (p, a, b, shp, dt) in s}
+
+    def call():
+        with np.errstate(all='ignore'), warnings.catch_warnings():
+            warnings.simplefilter('ignore')
+            if isprop:
+                return getattr(inst, member)
+            return getattr(inst, member)(**kw)
+    outs = []
+    for i in range(2):
+        st0 = state()
+        try:
+            out = call()
+        except Exception as e:
+            if i == 0:
+                return None if not res['aliases_ctor_data'] else res
+            res['second_raised'] = f'{type(e).__name__}: {e}'[:120]
+            break
+        outs.append(_canon(out))
+        st1 = state()
+        res['state_changed'] += [p for p in st0 if p in st1 and st0[p] != st1[p] and p not in res['state_changed']]
+        res['ctor_changed'] += [k for k, (v, b) in raw.items() if v.tobytes() != b and k not in res['ctor_changed']]
+        res['args_changed'] += [k for k, (v, b) in argraw.items() if v.tobytes() != b and k not in res['args_changed']]
+    if len(outs) == 2:
+        res['same'] = outs[0] == outs[1]
+    return res
+
+
+def o_lifecycle(inp):
+    """object life cycle: the constructor's input arrays are never changed by any later method call; a method that is not
+    a documented in-place operation leaves the object's own arrays alone and answers the same question the same way twice"""
+    cq, m = inp['class'], inp['member']
+    ob = lifecycle(cq, inp['opt'], inp['data'], m, inp['optional'], inp['trial'])
+    if ob is None:
+        return None
+    q = f'{cq}.{m}'
+    if cq in ARRAY_CLASSES and ob['aliases_ctor_data']:
+        return {'tag': f'{cq}.__new__/keeps-caller-array', 'observed': {'ctor_options': ob['ctor_options']},
+                'expected': 'the object owns a copy of the data it was constructed from'}
+    if ob['ctor_changed']:
+        return {'tag': f'{q}/mutates-constructor-data', 'observed': ob, 'expected': 'constructor input bytes unchanged'}
+    if ob['args_changed'] and not ob['mutator']:
+        return {'tag': f"{q}/mutates-{sorted(ob['args_changed'])[0]}", 'observed': ob, 'expected': 'argument bytes unchanged'}
+    if q in TB.DOCUMENTED_RANDOM or any(q.startswith(p) for p in TB.RANDOM_PREFIX) or ob['mutator']:
+        return None
+    strict = cq in ARRAY_CLASSES or inp.get('isprop')
+    if strict and ob['state_changed']:
+        return {'tag': f'{q}/query-mutates-object', 'observed': ob, 'expected': "the object's arrays unchanged by a method that is not a documented in-place operation"}
+    if strict and ('second_raised' in ob or ob.get('same') is False):
+        return {'tag': f'{q}/not-repeatable-on-same-object', 'observed': ob, 'expected': 'second identical call returns the same value'}
+    return None
+
+
+ORACLES = {'mutation': o_mutation, 'repeat': o_repeat, 'static': o_static, 'lifecycle': o_lifecycle}
 
 
 def _public_quals():
@@ -655,6 +841,25 @@ def search(ctx, scale):
             ctx.check('mutation', inp, r, nontrivial_key=key if ob['nd_args'] else None)
             r = _safe(o_repeat, inp)
             ctx.check('repeat', inp, r, nontrivial_key=key)
+    # object life cycles: every class x constructor options x every public member x (without / with optional arguments), twice
+    res = _res()
+    for cq, ci in sorted(res.pkg.classes.items()):
+        if not pyfx.is_public(cq.split('.')[-1]):
+            continue
+        try:
+            cls, _o = _live(cq)
+        except Exception:
+            continue
+        nopt = len(_lc_options(cls.__name__)) if cq in ARRAY_CLASSES else 2
+        for member in _lc_members(cls):
+            isprop = isinstance(next((k.__dict__[member] for k in cls.__mro__ if member in k.__dict__), None), property)
+            for opt in range(nopt):
+                for optional in ((False,) if isprop else (False, True)):
+                    for trial in range(1 if (isprop or not optional) else 2 * scale if scale == 1 else 4):
+                        for data in range(2 if cq in ARRAY_CLASSES else 1):
+                            inp = {'class': cq, 'member': member, 'opt': opt, 'data': data, 'optional': optional, 'trial': trial, 'isprop': isprop}
+                            r = _safe(o_lifecycle, inp)
+                            ctx.check('lifecycle', inp, r, nontrivial_key=(cq, member, opt, optional, trial, data) if r is None else None)
     inp = {}
     ctx.check('static', inp, o_static(inp))
     ctx.samples.append({'kind': 'search', 'oracle': 'mutation', 'input': {'callable': 'common.orientation.q2R', 'case': 0},
@@ -665,5 +870,5 @@ def _safe(f, inp):
     from vlib.core import call_outcome
     r = call_outcome(f, inp)
     if r[0] == 'raise':
-        return {'tag': f"{inp.get('callable', '?')}/oracle-raises-{r[1]}", 'observed': list(r[1:])}
+        return {'tag': f"{inp.get('callable', inp.get('class', '?') + '.' + str(inp.get('member', '')))}/oracle-raises-{r[1]}", 'observed': list(r[1:])}
     return r[1]
